@@ -30,6 +30,9 @@ import (
 
 var c16Alpha = []string{"a", "1", "_", "=", "!", "~", `"`, `\`, ",", "{", "}", " ", "\n", "n", "é", "😀", "\x80"}
 
+// second alphabet: the remaining reserved characters and white space beyond ASCII space / newline
+var c16Extra = []string{"\t", "\u00a0", "\u2003", "\u0085", "'", "`"}
+
 var c16Progress atomic.Int64
 
 func c16Watchdog(t *testing.T, cur *atomic.Value) func() {
@@ -300,8 +303,32 @@ func TestVerifC16(t *testing.T) {
 			}
 			return true
 		})
+		ext := append(append([]string{}, c16Alpha...), c16Extra...)
+		words(ext, maxLen-1, func(s string) bool {
+			ctr++
+			if ctr%nsh != shard {
+				return true
+			}
+			hasExtra := false
+			for _, e := range c16Extra {
+				if strings.Contains(s, e) {
+					hasExtra = true
+				}
+			}
+			if !hasExtra {
+				return true // covered by the first pass
+			}
+			cur.Store(s)
+			c16Progress.Add(1)
+			R.Executions++
+			R.Transitions += 6
+			if sig, desc := c16Raw(s, fb1, fbN); sig != "" {
+				R.Violate(sig, desc, map[string]any{"part": "raw", "input": s})
+			}
+			return true
+		})
 		R.Exhaustive = !timedOut
-		R.Bound = fmt.Sprintf("all strings of <= %d symbols over a %d-symbol alphabet (letters, digit, _, = ! ~ \" \\ , { } space newline, 2- and 4-byte runes, an invalid byte)", maxLen, len(c16Alpha))
+		R.Bound = fmt.Sprintf("all strings of <= %d symbols over a %d-symbol alphabet (letters, digit, _, = ! ~ \" \\ , { } space newline, 2- and 4-byte runes, an invalid byte) and all strings of <= %d symbols over that alphabet plus tab, U+00A0, U+2003, U+0085, ' and backtick", maxLen, len(c16Alpha), maxLen-1)
 		R.Extra["family"] = outcomes
 		R.Sample(map[string]any{"outcome_classes": outcomes})
 		R.Write()
@@ -315,7 +342,7 @@ func TestVerifC16(t *testing.T) {
 			maxN, maxV = 2, 4
 		}
 		var names []string
-		words(valid, maxN, func(s string) bool {
+		words(append(append([]string{}, valid...), c16Extra...), maxN, func(s string) bool {
 			if s != "" {
 				names = append(names, s)
 			}
